@@ -41,14 +41,14 @@ enum Obs {
 
 fn observe_file(path: &std::path::Path) -> Result<Obs, String> {
     guard(|| match a2lfile::load(path, None, false) {
-        Ok((f, log)) => Obs::Ok(format!("{f:?}"), log.len()),
+        Ok((f, log)) => Obs::Ok(vcore::dbgtree::canon_debug(&format!("{f:?}")), log.len()),
         Err(e) => Obs::Err(variant_of(&e)),
     })
 }
 
 fn observe_str(text: &str) -> Result<Obs, String> {
     guard(|| match a2lfile::load_from_string(text, None, false) {
-        Ok((f, log)) => Obs::Ok(format!("{f:?}"), log.len()),
+        Ok((f, log)) => Obs::Ok(vcore::dbgtree::canon_debug(&format!("{f:?}")), log.len()),
         Err(e) => Obs::Err(variant_of(&e)),
     })
 }
